@@ -695,6 +695,19 @@ impl<'tcx> Cx<'tcx> {
                     it.push(("items", arr(&ms)));
                     out.push(obj(&it));
                 }
+                DefKind::Static { .. } => {
+                    // process-wide state: name and type of every `static` (incl. the ones thread_local! / LazyLock hide behind)
+                    let ty = tcx.type_of(did).instantiate_identity().skip_norm_wip();
+                    let it: Vec<(&str, String)> = vec![
+                        ("rec", esc("static")),
+                        ("cfg", esc(cfg)),
+                        ("crate", esc(&krate)),
+                        ("def", esc(&self.path(did))),
+                        ("ty", esc(&self.ty(ty))),
+                        ("span", esc(&self.span(tcx.def_span(did)))),
+                    ];
+                    out.push(obj(&it));
+                }
                 DefKind::Const { .. } | DefKind::AssocConst { .. } => {
                     let generics = tcx.generics_of(did);
                     if generics.count() != 0 {
